@@ -1301,6 +1301,25 @@ class Desugar(ast.NodeTransformer):
                     del body[j]
                     continue
             j += 1
+        # D13b: if P and (v := (A if C else None)) is not None: BODY   (no else; A a text that cannot be None)   ->   if P and C: v = A ; BODY
+        def _non_none(e):
+            return isinstance(e, (ast.JoinedStr, ast.BinOp)) or (isinstance(e, ast.Constant) and e.value is not None) or (
+                isinstance(e, ast.Call) and isinstance(e.func, ast.Attribute) and e.func.attr in ('join', 'format', 'strip', 'lower', 'upper', 'replace'))
+        for b0 in body:
+            if isinstance(b0, ast.If) and not b0.orelse:
+                t0 = b0.test
+                ops_ = t0.values if isinstance(t0, ast.BoolOp) and isinstance(t0.op, ast.And) else [t0]
+                last = ops_[-1]
+                if isinstance(last, ast.Compare) and len(last.ops) == 1 and isinstance(last.ops[0], ast.IsNot) and isinstance(last.comparators[0], ast.Constant) \
+                        and last.comparators[0].value is None and isinstance(last.left, ast.NamedExpr) and isinstance(last.left.value, ast.IfExp) \
+                        and isinstance(last.left.value.orelse, ast.Constant) and last.left.value.orelse.value is None and _non_none(last.left.value.body) \
+                        and not any(isinstance(x, (ast.NamedExpr, ast.Call)) for x in ast.walk(last.left.value.test)):
+                    ne = last.left
+                    new_ops = list(ops_[:-1]) + [ne.value.test]
+                    b0.test = new_ops[0] if len(new_ops) == 1 else ast.copy_location(ast.BoolOp(op=ast.And(), values=new_ops), t0)
+                    asg = ast.copy_location(ast.Assign(targets=[ast.Name(id=ne.target.id, ctx=ast.Store())], value=ne.value.body), b0)
+                    ast.fix_missing_locations(asg)
+                    b0.body = [asg] + list(b0.body)
         # D13: if (v := E) ...:   ->   v = E ; if v ...:        (the assignment expression is what the test evaluates first)
         import copy
         body = list(body)
